@@ -225,16 +225,16 @@ func runAtomicWrite(c *Ctx, r *Reporter) {
 		// W2
 		okDir := false
 		if dirCall, ok := createTemp.Call.Args[0].(*ssa.Call); ok && dirCall.Call.StaticCallee() != nil && pkgFuncName(dirCall.Call.StaticCallee()) == "path/filepath.Dir" {
-			okDir = dirCall.Call.Args[0] == filename
+			okDir = unspill(dirCall.Call.Args[0]) == filename
 		}
 		r.Check(okDir, wq+"#W2:same-directory", p.Rel(instrPos(createTemp)), "the temp file is created in the directory of the target (rename cannot cross file systems)", "os.CreateTemp must get filepath.Dir(filename): a temp file elsewhere makes the final rename a non-atomic copy or fails across file systems")
-		okRen := len(rename.Call.Args) == 2 && rename.Call.Args[1] == filename
+		okRen := len(rename.Call.Args) == 2 && unspill(rename.Call.Args[1]) == filename
 		if okRen {
 			nameCall, ok := rename.Call.Args[0].(*ssa.Call)
 			okRen = ok && nameCall.Call.StaticCallee() != nil && pkgFuncName(nameCall.Call.StaticCallee()) == "os.File.Name" && nameCall.Call.Args[0] == tempFile
 		}
 		r.Check(okRen, wq+"#W2:rename-temp-onto-target", p.Rel(instrPos(rename)), "the written temp file is renamed onto the target", "os.Rename must move tempFile.Name() onto filename")
-		r.Check(len(write.Call.Args) == 2 && write.Call.Args[0] == tempFile && write.Call.Args[1] == data, wq+"#W3:write-data", p.Rel(instrPos(write)), "the formatted bytes are written to the temp file", "tempFile.Write must write the data parameter to the temp file")
+		r.Check(len(write.Call.Args) == 2 && write.Call.Args[0] == tempFile && unspill(write.Call.Args[1]) == data, wq+"#W3:write-data", p.Rel(instrPos(write)), "the formatted bytes are written to the temp file", "tempFile.Write must write the data parameter to the temp file")
 		// W3 order + error discipline
 		seq := []*ssa.Call{createTemp, write, closeC, rename}
 		names := []string{"CreateTemp", "Write", "Close", "Rename"}
@@ -256,7 +256,7 @@ func runAtomicWrite(c *Ctx, r *Reporter) {
 		// W4
 		okMode := false
 		if chmod != nil && stat != nil {
-			okMode = chmod.Call.Args[0] == tempFile && stat.Call.Args[0] == filename && valueReaches(chmod.Call.Args[1], stat, 8) &&
+			okMode = chmod.Call.Args[0] == tempFile && unspill(stat.Call.Args[0]) == filename && valueReaches(chmod.Call.Args[1], stat, 8) &&
 				instrDominatesOrReaches(write, chmod) && reachesBlock(chmod.Block(), rename.Block()) && nilErrGuards(stat, chmod)
 			// a failed chmod must not reach rename
 			if okMode {
@@ -273,6 +273,11 @@ callers:
 	// W5: callers. A function that only hands its own parameters on to the writer (a wrapper that adds the file name
 	// to the error, say) stands for the writer: its call sites are the write sites.
 	dataArg := map[*ssa.Function]int{writer: 0}
+	for pi, prm := range writer.Params {
+		if _, isSlice := prm.Type().Underlying().(*types.Slice); isSlice {
+			dataArg[writer] = pi
+		}
+	}
 	for changed := true; changed; {
 		changed = false
 		for _, fn := range fns {
@@ -547,51 +552,61 @@ callers:
 		}
 		isOut := func(v ssa.Value) bool { return valueReaches(v, fmtMeth, 4) }
 		if (isIn(in) && isOut(out)) || (isIn(out) && isOut(in)) {
-			// unequal edge (under checkOnly) returns errNotFormatted
-			for _, ref := range *cmp.Referrers() {
-				ifi, ok := ref.(*ssa.If)
+			// errNotFormatted is returned exactly where the two are known to differ, under checkOnly — however the
+			// tests are written (`if checkOnly && in != out`, `case !(in == out):`, a helper that compares)
+			nNF := 0
+			okCmp = true
+			for _, ret := range returnsOf(cmp.Parent()) {
+				if len(ret.Results) == 0 {
+					continue
+				}
+				u, ok := ret.Results[len(ret.Results)-1].(*ssa.UnOp)
 				if !ok {
 					continue
 				}
-				edge := 0
-				if cmp.Op == token.EQL {
-					edge = 1
+				if g, ok := u.X.(*ssa.Global); !ok || g.Name() != "errNotFormatted" {
+					continue
 				}
-				t := ifi.Block().Succs[edge]
-				if len(t.Instrs) > 0 {
-					if ret, ok := t.Instrs[len(t.Instrs)-1].(*ssa.Return); ok && len(ret.Results) >= 1 {
-						if u, ok := ret.Results[len(ret.Results)-1].(*ssa.UnOp); ok {
-							if g, ok := u.X.(*ssa.Global); ok && g.Name() == "errNotFormatted" {
-								okCmp = true
-							}
-						}
+				nNF++
+				differ := false
+				for _, f := range impliedConds(ret.Block()) {
+					if f.Cond == ssa.Value(cmp) && f.Truth == (cmp.Op == token.NEQ) {
+						differ = true
 					}
 				}
-				// … and the equal edge does not: a helper that compares returns no error there
-				if okCmp && cmp.Parent() != format {
-					for _, ret := range returnsOf(cmp.Parent()) {
-						if reachesBlock(ifi.Block().Succs[1-edge], ret.Block()) || ifi.Block().Succs[1-edge] == ret.Block() {
-							if k, isConst := ret.Results[len(ret.Results)-1].(*ssa.Const); !isConst || !k.IsNil() {
-								okCmp = false
-							}
-						}
-					}
-				}
-				// the comparison itself is evaluated only when checkOnly holds
-				if okCmp {
+				if !differ {
 					okCmp = false
-					at := ifi.Block()
-					if hc := siteOf(cmp); hc != nil {
-						at = hc.Block()
-					} else if cmp.Parent() != format {
-						continue
-					}
-					for _, f := range impliedConds(at) {
-						if prm, isParam := f.Cond.(*ssa.Parameter); isParam && prm.Parent() == format && f.Truth {
-							okCmp = true
-						}
+				}
+				at := ret.Block()
+				if hc := siteOf(cmp); hc != nil {
+					at = hc.Block()
+				} else if cmp.Parent() != format {
+					okCmp = false
+				}
+				underCheck := false
+				for _, f := range impliedConds(at) {
+					if prm, isParam := f.Cond.(*ssa.Parameter); isParam && prm.Parent() == format && f.Truth {
+						underCheck = true
 					}
 				}
+				if !underCheck {
+					okCmp = false
+				}
+			}
+			// and where they are known to be equal, no error comes out of the comparison
+			for _, ret := range returnsOf(cmp.Parent()) {
+				equal := false
+				for _, f := range impliedConds(ret.Block()) {
+					if f.Cond == ssa.Value(cmp) && f.Truth == (cmp.Op == token.EQL) {
+						equal = true
+					}
+				}
+				if equal && len(ret.Results) > 0 && !mayBeNilError(ret.Results[len(ret.Results)-1], ret.Block(), 0) {
+					okCmp = false
+				}
+			}
+			if nNF == 0 {
+				okCmp = false
 			}
 		}
 	}
@@ -887,6 +902,57 @@ func atomicWriteChain(p *Program, r *Reporter, writer *ssa.Function, wq, wpos st
 	}
 	r.Check(okMode, wq+"#W4:permission-bits", wpos, "the temp file receives the target's permission bits (Stat → Chmod) before the rename", "the temp file created by os.CreateTemp has mode 0600; without a Chmod to the target's Stat().Mode().Perm() before the rename, `evy fmt -w` silently changes the file's permissions")
 	return true
+}
+
+// unspill: a parameter that a closure captures lives in a cell (`t0 = new string (filename); *t0 = filename`) and is
+// read through it; the value read is the parameter as long as nothing else is ever stored into the cell.
+func unspill(v ssa.Value) ssa.Value {
+	u, ok := v.(*ssa.UnOp)
+	if !ok || u.Op != token.MUL {
+		return v
+	}
+	cell, ok := u.X.(*ssa.Alloc)
+	if !ok || cell.Referrers() == nil {
+		return v
+	}
+	var stored ssa.Value
+	check := func(refs []ssa.Instruction) bool {
+		for _, ref := range refs {
+			if st, ok := ref.(*ssa.Store); ok && st.Addr == ssa.Value(cell) {
+				if stored != nil {
+					return false
+				}
+				stored = st.Val
+			}
+		}
+		return true
+	}
+	if !check(*cell.Referrers()) {
+		return v
+	}
+	// stores through the closures that capture the cell
+	for _, ref := range *cell.Referrers() {
+		if mc, ok := ref.(*ssa.MakeClosure); ok {
+			if af, ok := mc.Fn.(*ssa.Function); ok {
+				for bi, b := range mc.Bindings {
+					if b != ssa.Value(cell) || bi >= len(af.FreeVars) {
+						continue
+					}
+					if fr := af.FreeVars[bi].Referrers(); fr != nil {
+						for _, r2 := range *fr {
+							if _, isStore := r2.(*ssa.Store); isStore {
+								return v
+							}
+						}
+					}
+				}
+			}
+		}
+	}
+	if prm, ok := stored.(*ssa.Parameter); ok {
+		return prm
+	}
+	return v
 }
 
 var _ = packages.NeedName
